@@ -191,7 +191,7 @@ def run(ctx):
         # salt the first int/string so that no key repeats across cases in this process
         for v in a:
             if v["t"] == "int":
-                v["v"] = 1000000 + i
+                v["v"] = 1000000 + 100 * i      # variants below move it by at most 10: keys of different cases never meet
                 break
             if v["t"] == "string":
                 v["b"] = base64.b64encode(b"case%d:" % i + base64.b64decode(v.get("b", ""))).decode()
